@@ -450,12 +450,77 @@ def ml_case(case, env):
     check_json(c, env, data, path, ["-C1"], "json-multiline-context", multiline=True)
 
 
+def nul_ml_case(case0, env):
+    """--null-data -U with matches that span records: every printed record is
+    `N:OFFSET:content` of record N of the input (records end in NUL and may
+    contain LF), in the plain and in the slow (column) printer paths."""
+    rep = env.rep
+    rng = common.Rng(case0["seed"])
+    words = [b"alpha", b"foo", b"bar", b"beta\ngamma", b"x", b"", b"foo\nbar", b"needle", b"zz\n", b"\nq"]
+    recs = [rng.pick(words) for _ in range(rng.range(2, 14))]
+    data = b"\0".join(recs) + (b"\0" if rng.chance(3, 4) else b"")
+    path = env.write("n.bin", data)
+    # a pattern made of the end of one record, the NUL, and the start of the next
+    k = rng.below(len(recs) - 1)
+    left = recs[k][-3:].replace(b"\n", b"")[-2:]
+    right = recs[k + 1][:3].replace(b"\n", b"")[:2]
+    def lit(b):
+        return "".join("\\x%02x" % c if not (48 <= c <= 57 or 97 <= c <= 122) else chr(c) for c in b)
+    pat = rng.pick([lit(left) + "\\n?\\x00\\n?" + lit(right), "[a-z]\\x00[a-z]", "\\x00foo", "(?s:o.b)", "a\\x00(?s:.)"])
+    starts, pos = [], 0
+    for r in recs:
+        starts.append(pos)
+        pos += len(r) + 1
+    for mname, margs in (("nul-multiline", ["-n", "-b"]), ("nul-multiline-context", ["-n", "-b", "-C1"]),
+                         ("nul-multiline-column", ["-n", "-b", "--column"])):
+        rep["evaluations"] += 1
+        argv = ["-a", "--no-config", "--color", "never", "--no-heading", "--null-data", "-U"] + margs + ["-e", pat, path]
+        r = common.run_rg(argv, env.tmp, env.home)
+        if r is None:
+            env.inconclusive("watchdog")
+            continue
+        env.count("rg_runs")
+        if r[0] == 2:
+            env.count("nul_patterns_rejected")
+            continue
+        out = r[1]
+        printed = 0
+        for rec in out.split(b"\0"):
+            if rec in (b"", b"--", b"\n"):
+                continue
+            m = re.match(rb"^(\d+)[:-](?:(\d+)[:-])?(\d+)[:-]", rec) if mname.endswith("column") else re.match(rb"^(\d+)[:-](\d+)[:-]", rec)
+            bad = None
+            if not m:
+                bad = "unparsable record"
+            else:
+                n = int(m.group(1))
+                off = int(m.group(m.lastindex))
+                text = rec[m.end():]
+                if not (1 <= n <= len(recs)):
+                    bad = "record number %d does not exist" % n
+                elif off != starts[n - 1]:
+                    bad = "offset %d, record %d starts at %d" % (off, n, starts[n - 1])
+                elif text != recs[n - 1]:
+                    bad = "printed text is not record %d" % n
+            if bad:
+                env.viol("C09:%s:%s" % (mname, bad.split(",")[0].split(" %")[0].replace(" ", "-")[:40]),
+                         "%s: %s (pattern %s)" % (bad, esc(rec[:80]), pat),
+                         {"kind": "cli", "argv": argv[:-1] + ["<file>"], "input": esc(data), "stdout": esc(out[:1500])})
+                break
+            printed += 1
+            env.count("records_checked")
+        if printed:
+            env.nontrivial((pat, data, mname))
+    env.sample({"argv": ["rg", "--null-data", "-U", "-n", "-b", "-e", pat], "input": esc(data[:100])}, limit=1)
+
+
 def check(tier, seed, t0):
     common.build_harness()
     common.build_rg()
     total = 1000 if tier == "quick" else 40000
     parts = [("text+json", common.run_cli_cases("c09", cli_case, seed, "c09", total, 63 if tier == "quick" else 200)),
-             ("multiline", common.run_cli_cases("c13", ml_case, seed, "c09u", total // 2, 32 if tier == "quick" else 200))]
+             ("multiline", common.run_cli_cases("c13", ml_case, seed, "c09u", total // 2, 32 if tier == "quick" else 200)),
+             ("nul-multiline", common.run_cli_cases(None, nul_ml_case, seed, "c09n", total // 4, 16 if tier == "quick" else 100))]
     rep = common.merge_reports(parts)
     return common.finalize("C09", tier, seed, "exploration", RULE, rep, t0, ASSUME, floor_eval=300, floor_distinct=100)
 
